@@ -109,10 +109,9 @@ def hist_tree(rnd, sid, steps=8, faults=False, probes=False):
 
 
 def tree_probe(o, info):
-    paths = [ap(o, p) for p in ["y", "s1.x", "s1.lf.x", "s2.lf.x"]]
-    if info["has_ol"]:
-        paths += [ap(o, "ol[0].x"), ap(o, "ol[1].x")]
-    return {"op": "probe", "call": wcall([], o), "paths": paths, "cap": 1024}
+    """pins every scalar of the tree: rows are real solutions and their single-field mutations"""
+    return {"op": "probe", "call": wcall([], o), "paths": [ap(o, p) for p in info["scalars"]], "mode": "around", "nsol": 3,
+            "cap": 160}
 
 
 def family_T(tier, seed, n=None, faults=False, probes=False, tag="T"):
